@@ -225,6 +225,11 @@ def gen_stmt(ctx, rnd, labels, near, depth=0):
     elif r < 0.92 and opts.get("dotskip") and depth == 0:
         out.append(apm.dotassign(("bin", "+", ("dot",), small_count(ctx, rnd, 20)[0])))
         ctx.maybe_odd = True
+    elif r < 0.92 and opts.get("dotskip") and depth > 0:
+        # the alignment idiom inside a repeat body: every copy rounds its own '.' up (a forward skip of 1..m bytes)
+        m = rnd.choice([2, 4, 8])
+        out.append(apm.dotassign(("bin", "+", ("bin", "*", ("bin", "/", ("dot",), apm.num(m)), apm.num(m)), apm.num(m))))
+        ctx.maybe_odd = False
     elif r < 0.97 and opts.get("repeat") and depth < 2:
         e, v = small_count(ctx, rnd, 4)
         body = []
